@@ -100,6 +100,7 @@ open Ue in
 def ueHandlers : List (String × Handler) := [
   ("createue", createUeOp),
   ("uecap", ueCapOp),
+  ("uecap2", fun a => ueCapOp (a.take 2)),
   ("uesuci", ueSuciOp),
   ("uepop", uePopOp)
 ]
